@@ -856,7 +856,15 @@ func genTarget(rng *vlib.Rng) (int, []byte, int) {
 
 func genIPv6(rng *vlib.Rng) []byte {
 	a := make([]byte, 16)
-	switch rng.Intn(6) {
+	switch rng.Intn(7) {
+	case 6: // well-known addresses and prefixes
+		ip := net.ParseIP(vlib.Pick(rng, []string{"::", "::1", "fe80::1", "fe80::1:2:3:4", "ff02::1", "ff02::1:ff00:1", "2001:db8::", "2001:db8::1",
+			"64:ff9b::c000:221", "2002:c000:221::", "::ffff:0:0", "::fffe:1.2.3.4", "1::", "0:0:1::", "1:0:0:2:0:0:0:3", "1:0:0:0:2:0:0:3",
+			"fc00::", "2001:0:0:1::1", "0:1:0:1:0:1:0:1", "1:2:3:4:5:6:7:0", "0:2:3:4:5:6:7:8", "1:2:3:4:5:6:0:0", "ffff:ffff:ffff:ffff:ffff:ffff:ffff:ffff"}))
+		copy(a, ip.To16())
+		if rng.Intn(3) == 0 {
+			copy(a[8:], rng.Bytes(8))
+		}
 	case 0: // arbitrary
 		copy(a, rng.Bytes(16))
 	case 1: // v4-mapped and near misses
@@ -1261,29 +1269,29 @@ func main() {
 	enumArgStrings(maxLen, func(s []byte) { checkArgs(r, d, tcase{Kind: "args", Str: append(HB(nil), s...), Note: "exhaustive"}) })
 	r.Notes["exhaustive_space"] = fmt.Sprintf("parseClientParameters on all strings over {\\,;,=,a} of length 0..%d", maxLen)
 
-	for i, n := 0, r.Scale(2500, 40000); i < n; i++ {
+	for i, n := 0, r.Scale(8000, 100000); i < n; i++ {
 		check(r, d, genHonest(rng))
 	}
-	for i, n := 0, r.Scale(1500, 25000); i < n; i++ {
+	for i, n := 0, r.Scale(5000, 60000); i < n; i++ {
 		check(r, d, genPipelined(rng))
 	}
-	for i, n := 0, r.Scale(4000, 80000); i < n; i++ {
+	for i, n := 0, r.Scale(12000, 200000); i < n; i++ {
 		check(r, d, genMalformed(rng))
 	}
-	for i, n := 0, r.Scale(4000, 80000); i < n; i++ {
+	for i, n := 0, r.Scale(12000, 200000); i < n; i++ {
 		check(r, d, genArgString(rng, false))
 	}
-	for i, n := 0, r.Scale(30, 400); i < n; i++ {
+	for i, n := 0, r.Scale(60, 600); i < n; i++ {
 		check(r, d, genArgString(rng, true))
 	}
-	for i, n := 0, r.Scale(1500, 30000); i < n; i++ {
+	for i, n := 0, r.Scale(4000, 60000); i < n; i++ {
 		c := tcase{Kind: "enc", Pairs: genPairs(rng)}
 		if rng.Intn(20) == 0 {
 			c.Pairs = nil
 		}
 		check(r, d, c)
 	}
-	for i, n := 0, r.Scale(2500, 50000); i < n; i++ {
+	for i, n := 0, r.Scale(8000, 120000); i < n; i++ {
 		c := tcase{Kind: "target"}
 		c.Atyp, c.Addr, c.Port = genTarget(rng)
 		check(r, d, c)
